@@ -26,7 +26,17 @@ Inductive mtest :=
 | TPyPrivate (p : string).      (* _is_private_method(node.name): name.startswith(p) *)
 
 (* what a value of the dict returned by analyze_class / analyze_struct is computed from *)
-Inductive mtag := TName | TMethodCount | TLoc | THasKeyword | TLine (plus : nat) | TColumn.
+(* TLine / TColumn: start of the class node;  THLine / THColumn: start of its `class` / `abstract` keyword
+   (TypeScript _header_node: decorators precede the keyword inside the class node) *)
+Inductive mtag := TName | TMethodCount | TLoc | THasKeyword | TLine (plus : nat) | TColumn | THLine (plus : nat) | THColumn.
+
+(* TypeScript count_loc: raw line span + plus, or the number of lines of lines[start - lo_sub : end + hi_add]
+   that are non-empty after strip() and do not start with the prefix *)
+Inductive locmode := LocSpan (plus : nat) | LocFilter (lo_sub hi_add : nat) (pfx : string).
+
+(* Rust get_impl_target_name: the first child of the given node type, or first the `type` field of the impl
+   (unwrapped when it is a node of type gty) when its node type is ty, then the first child of type loop_ty *)
+Inductive tmode := TargetFirst (ty : string) | TargetField (gty ty loop_ty : string).
 
 (* ------------------------------------------------------------------ abstract input *)
 Inductive lang := Py | Ts | Js | Rs.
@@ -58,10 +68,11 @@ Record member := { m_kind : mkind; m_name : string }.
 
 Inductive ckind := CPlain | CExport | CExportDefault | CAbstract | CExportAbstract.
 
-(* a class of a Python / TypeScript / JavaScript file as the parser reports it: name, position of the
-   class node (1-based line of the `class` keyword, 0-based column), number of source lines of the
-   node, direct members of its body in order.  Nested classes are separate records. *)
-Record cls := { c_name : string; c_kind : ckind; c_line : nat; c_col : nat; c_len : nat; c_members : list member }.
+(* a class of a Python / TypeScript / JavaScript file as the parser reports it: name, 1-based line and
+   0-based column of its `class` (`abstract class`) keyword, number of decorator lines that precede the
+   keyword line INSIDE the class node (TypeScript, non-exported classes), number of source lines of the
+   node (decorator lines included), direct members of its body in order.  Nested classes are separate records. *)
+Record cls := { c_name : string; c_kind : ckind; c_line : nat; c_col : nat; c_deco : nat; c_len : nat; c_members : list member }.
 
 (* Rust: struct definitions and impl blocks, each with the module path it sits in *)
 Inductive traitref := TNone | TSimple (t : string) | TScoped (p t : string).
